@@ -363,7 +363,7 @@ pub fn property() -> Property {
             EnumSub::new("regressions", false, regression_items, check_total).boxed(),
             PropSub::new("mutated", 40_000, 400_000, move || total_case(g.clone(), true), check_total).with_validity(|c| c.doc.valid()).boxed(),
             PropSub::new("grammar", 16_000, 160_000, move || total_case(g2.clone(), false), check_total).with_validity(|c| c.doc.valid()).boxed(),
-            EnumSub::new("ladder", false, ladder_items, check_ladder).boxed(),
+            EnumSub::new("ladder", false, ladder_items, check_ladder).with_hang_secs(4000).boxed(),
         ],
     }
 }
